@@ -14,6 +14,7 @@ starts a real thread and joins it immediately, so only one thread is ever runnab
 makes no scheduling decision.  The real `make_sync` logic runs unmodified.
 """
 import asyncio
+import contextvars
 import hashlib
 import heapq
 import threading
@@ -41,6 +42,9 @@ class World:
         self.threads = 0
         self._trace = hashlib.sha1()
         self.trace_head = []  # first few picks, for samples
+        self.mt = None  # MTSched while a multi-thread block is active
+        self.thread_choice_points = 0
+        self.thread_switches = 0
 
     def note(self, i, n):
         self._trace.update(b"%.6f,%d,%d;" % (self.now, i, n))
@@ -72,6 +76,10 @@ class SimLoop(asyncio.BaseEventLoop):
         while sched and sched[0]._cancelled:
             h = heapq.heappop(sched)
             h._scheduled = False
+        if w.mt is not None:
+            # several simulated threads: give the baton back to the world scheduler; when it
+            # returns this loop has something ready, or the clock has reached its next timer
+            w.mt.yield_point(self)
         if not self._ready and sched:
             when = sched[0]._when
             if when > w.now:
@@ -139,6 +147,8 @@ class SimThreadPool:
         f = _SimFuture()
         if SimPolicy.world is not None:
             SimPolicy.world.threads += 1
+            if SimPolicy.world.mt is not None:
+                return SimPolicy.world.mt.submit_worker(f, fn, a, k)
 
         def run():
             try:
@@ -146,10 +156,161 @@ class SimThreadPool:
             except BaseException as e:  # delivered to the caller by result()
                 f._e = e
 
-        t = threading.Thread(target=run, name="sim-make-sync")
+        # the worker inherits the caller's contextvars (the real pool does not; func_adl uses
+        # none): this is how the simulator attributes an executor start to the call behind it
+        ctx = contextvars.copy_context()
+        t = threading.Thread(target=ctx.run, args=(run,), name="sim-make-sync")
         t.start()
         t.join()
         return f
+
+
+class _SimThread:
+    def __init__(self, name, fn):
+        self.name = name
+        self.fn = fn
+        self.state = "runnable"  # runnable | sleeping | waiting | done
+        self.until = 0.0
+        self.waiting_on = None
+        self.event = threading.Event()
+        self.exc = None
+        self.thread = None
+
+
+class MTSched:
+    """Baton-passing scheduler for several simulated threads on one virtual clock (stage 2).
+
+    Real threads, but exactly one holds the baton; the others are parked on their Event.  A
+    thread gives the baton back at every step of its event loop and between its operations;
+    the next holder is drawn by the schedule PRNG among the runnable ones.  A thread whose loop
+    has only timers sleeps until its next timer; the clock advances to the earliest such timer
+    only when no thread is runnable.  A caller of make_sync's pool waits for its worker."""
+
+    def __init__(self, world):
+        self.w = world
+        self.threads = []
+        self.current = None
+        self.main = threading.Event()
+        self.failed = None
+
+    def spawn(self, name, fn):
+        t = _SimThread(name, fn)
+        self.threads.append(t)
+        t.thread = threading.Thread(target=self._boot, args=(t,), name="sim-" + name)
+        t.thread.start()
+        return t
+
+    def _boot(self, t):
+        if not t.event.wait(100):
+            return
+        t.event.clear()
+        try:
+            t.fn()
+        except BaseException as e:
+            t.exc = e
+        t.state = "done"
+        for x in self.threads:
+            if x.waiting_on is t:
+                x.waiting_on = None
+                x.state = "runnable"
+        self._handoff()
+
+    def _pick(self):
+        run = [x for x in self.threads if x.state == "runnable"]
+        if not run:
+            sl = [x for x in self.threads if x.state == "sleeping"]
+            if not sl:
+                return None
+            tmin = min(x.until for x in sl)
+            if tmin > self.w.now:
+                self.w.now = tmin
+                self.w.clock_jumps += 1
+            run = [x for x in sl if x.until <= tmin]
+            for x in run:
+                x.state = "runnable"
+        if len(run) == 1:
+            return run[0]
+        self.w.thread_choice_points += 1
+        return run[self.w.rng.randrange(len(run))]
+
+    def _handoff(self):
+        "The current thread cannot continue (finished): pass the baton on, or wake the coordinator."
+        nxt = self._pick()
+        if nxt is None:
+            if any(x.state != "done" for x in self.threads):
+                self.failed = Deadlock("threads are waiting but none can run")
+            self.main.set()
+            return
+        self.current = nxt
+        nxt.event.set()
+
+    def _switch(self, me, nxt):
+        if nxt is me:
+            return
+        self.w.thread_switches += 1
+        self.current = nxt
+        nxt.event.set()
+        if not me.event.wait(100):
+            raise Deadlock("baton never came back")
+        me.event.clear()
+
+    def yield_point(self, loop=None):
+        me = self.current
+        if loop is not None:
+            if loop._ready:
+                me.state = "runnable"
+            elif loop._scheduled:
+                me.state = "sleeping"
+                me.until = loop._scheduled[0]._when
+            else:
+                raise Deadlock("nothing runnable")
+        else:
+            me.state = "runnable"
+        nxt = self._pick()
+        if nxt is None:
+            raise Deadlock("no thread can run")
+        self._switch(me, nxt)
+
+    def submit_worker(self, f, fn, a, k):
+        me = self.current
+
+        ctx = contextvars.copy_context()
+
+        def job():
+            try:
+                f._r = ctx.run(fn, *a, **k)
+            except BaseException as e:
+                f._e = e
+
+        t = self.spawn("worker", job)
+        me.state = "waiting"
+        me.waiting_on = t
+        nxt = self._pick()
+        self._switch(me, nxt)
+        return f
+
+
+def run_threads(world: World, fns):
+    """Run the callables as simulated threads to completion under the world's scheduler.  The
+    calling (coordinator) thread is blocked meanwhile."""
+    mt = MTSched(world)
+    world.mt = mt
+    try:
+        ts = [mt.spawn(f"user{i}", fn) for i, fn in enumerate(fns)]
+        first = mt._pick()
+        mt.current = first
+        first.event.set()
+        if not mt.main.wait(200):
+            raise Deadlock("multi-thread block did not finish")
+        for t in mt.threads:
+            t.thread.join(5)
+        if mt.failed is not None:
+            raise mt.failed
+        for t in ts:
+            if t.exc is not None:
+                raise t.exc
+    finally:
+        world.mt = None
 
 
 _installed = False
